@@ -134,7 +134,9 @@ def asmProg (j : Json) : List (String × Json) :=
      ("origin", optStr a.origin.hex?),
      ("originInt", match a.origin.int? with | some n => Json.num (JsonNumber.fromNat n) | none => Json.null),
      ("name", optStr a.name),
-     ("image", optHexBytes a.image)])
+     ("image", optHexBytes a.image),
+     ("listing", Json.arr (a.stmts.map (fun s => optStr s.listing)).toArray),
+     ("symlines", match symtabLines a.symtab with | some ls => Json.arr (ls.map (fun l => Json.str (String.ofList l))).toArray | none => Json.null)])
 
 def intJson (i : Int) : Json := Json.num (JsonNumber.fromInt i)
 def natJ (n : Nat) : Json := Json.num (JsonNumber.fromNat n)
